@@ -778,7 +778,11 @@ impl Scenario for C10Agent {
             // to a send call exactly once, so conservation is asserted over the *attempted* datagrams —
             // a failed send loses that payload, never the ones behind it
             let per_datagram = ["dgram_drop", "dgram_dup", "send_refused", "send_nobufs", "send_timeout"];
-            let over_attempts = plan.transport != 2 && !faults.is_empty() && faults.iter().all(|f| per_datagram.contains(&f.kind.as_str()));
+            // ---- the stream transport likewise, under faults of single write calls (short, interrupted,
+            // timed out, broken pipe, reset) and no failing reconnect: every frame is handed to a write
+            // call that starts with its length prefix exactly once
+            let per_write = ["short_write", "write_eintr", "write_epipe", "write_reset", "write_wouldblock"];
+            let over_attempts = !faults.is_empty() && if plan.transport != 2 { faults.iter().all(|f| per_datagram.contains(&f.kind.as_str())) } else { faults.iter().all(|f| per_write.contains(&f.kind.as_str())) };
             if over_attempts {
                 messages = st.attempts.iter().map(|d| (d.time, d.step, d.data.clone())).collect();
                 rep.count("conservation_over_attempts_runs", 1);
@@ -850,7 +854,7 @@ impl Scenario for C10Agent {
         vec!["thread scheduler (dsim)", "std::thread::sleep / Instant (virtual time)", "UdpSocket / UnixDatagram / UnixStream (simulated agent socket with seeded drop, duplicate, ECONNREFUSED, ENOBUFS, timeout, short write, EINTR, EPIPE, reset)", "SystemTime for the timestamp value (real; only its presence is compared)"]
     }
     fn assumptions(&self) -> Vec<&'static str> {
-        vec!["application updates happen in the middle of flush intervals in this scenario (update/flush races are the `flush` scenario's job); conservation is asserted in fault-free runs and, over the attempted datagrams, in datagram-transport runs whose only faults decide the fate of single datagrams; framing and well-formedness in all runs"]
+        vec!["application updates happen in the middle of flush intervals in this scenario (update/flush races are the `flush` scenario's job); conservation is asserted in fault-free runs and, over the attempted datagrams or frames, in runs whose only faults decide the fate of single datagrams or single write calls; framing and well-formedness in all runs"]
     }
 }
 
